@@ -255,6 +255,18 @@ pub fn gen_c12(cx: &mut Ctx, prop: &str) {
 
 pub fn gen_c13(cx: &mut Ctx) {
     gen_c12(cx, "C13");
+    // every scalar value in five template texts (thorough: all of them; quick: the whole Basic
+    // Multilingual Plane and every 17th value beyond)
+    for tmpl in 0..6usize {
+        let mut lo = 0u32;
+        while lo < 0x110000 {
+            let hi = lo + 0x1000;
+            let stride = if cx.thorough || lo < 0x10000 { 1 } else { 17 };
+            let args = [Arg::A(tmpl.to_string()), Arg::A(lo.to_string()), Arg::A(hi.to_string()), Arg::A(stride.to_string())];
+            cx.emit("C13", "sweep", &args, true);
+            lo = hi;
+        }
+    }
     // stack probes, each in its own process: nesting depth and the width of one operator chain
     for (shape, n) in [("paren", 300usize), ("paren", 600), ("not", 600), ("negparen", 600), ("orchain", 5000), ("orchain", 50000), ("andchain", 20000), ("mixchain", 30000)] {
         let ans = run_probe(shape, n);
@@ -812,6 +824,28 @@ pub fn gen_c16(cx: &mut Ctx) {
             l[i] = c.join(",");
             variants.push(l.join("\n"));
         }
+        // move a character across a comma inside one record: the record keeps its length and its
+        // characters, two cells stop being Boolean spellings (`0,1` -> `,01` / `01,`)
+        for i in 0..lines.len() {
+            let cells: Vec<&str> = lines[i].split(',').collect();
+            for k in 0..cells.len().saturating_sub(1) {
+                for left in [true, false] {
+                    let mut c: Vec<String> = cells.iter().map(|x| x.to_string()).collect();
+                    if left {
+                        let moved = c[k + 1].clone();
+                        c[k].push_str(&moved);
+                        c[k + 1].clear();
+                    } else {
+                        let moved = c[k].clone();
+                        c[k + 1] = format!("{}{}", moved, c[k + 1]);
+                        c[k].clear();
+                    }
+                    let mut l: Vec<String> = lines.iter().map(|x| x.to_string()).collect();
+                    l[i] = c.join(",");
+                    variants.push(l.join("\n"));
+                }
+            }
+        }
         // replace one data row by a copy of another (count stays right, a combination is missing)
         if lines.len() >= 3 {
             let mut l = lines.clone();
@@ -1069,6 +1103,21 @@ pub fn gen_c20(cx: &mut Ctx) {
             calls.push((s("essential"), vec![Arg::F(Val::E(tree.clone()))]));
         }
         calls.push((s("implied"), vec![Arg::F(x.clone()), Arg::F(y.clone())]));
+        // near-identical texts (layout, letter case, inside and outside braces): a memo with a lossy key
+        // answers one of them with the other's result, depending on which came first
+        if round % 4 == 1 {
+            let group: &[&str] = *rng.pick(&[
+                &["{cell cycle} & b", "{cell  cycle} & b", "{cell   cycle} & b", "{cell\tcycle} & b", " {cell cycle} & b ", "{cell cycle}  &  b"][..],
+                &["{a b}", "{a  b}", "{A b}", "{a b }", "{ a b}", "{a\u{a0}b}"][..],
+                &["a & b", "a  &  b", "A & b", "a&b", "a AND b", "a and b", " a & b"][..],
+                &["x_1 | !y", "x_1|!y", "X_1 | !y", "x_1 | ! y", "x_1 | NOT y", "x_1 | !Y"][..],
+                &["{p-q} | {P-q}", "{p-q}  |  {P-q}", "{p -q} | {P-q}", "{P-q} | {p-q}"][..],
+            ]);
+            for t in group {
+                calls.push((s("parse"), vec![Arg::X(t.to_string())]));
+                calls.push((s("tokens"), vec![Arg::X(t.to_string())]));
+            }
+        }
         // the by-value connectives under different ownership of the operand handles (who else holds the
         // operand is not part of its value): operands with every kind of root
         {
